@@ -32,7 +32,7 @@ def main():
     name = sys.argv[1]
     d = os.path.join(ROOT, "seeded", name)
     meta = json.load(open(os.path.join(d, "meta.json")))
-    checks = sys.argv[2:] or [meta["property"]]
+    checks = [a for a in sys.argv[2:] if not a.startswith("--")] or [meta["property"]]
     env = dict(os.environ, VERIF_REPO=WT, VERIF_BUILD=BUILD, VERIF_OUT="/tmp/evalwt-out")
     res = dict(seed=name, property=meta["property"], at=time.strftime("%Y-%m-%d %H:%M"))
     # clean tree: demo must pass
